@@ -5,7 +5,7 @@
    raise inside a permitted combination is runtime behaviour the model cannot exhibit: ./check C19
    enumerates the cross product on the real driver (every exception is a violation with its argv). *)
 From Coq Require Import String List Bool.
-From VF Require Import Gen.Gen_caps Proofs.C19_proofs.
+From VF Require Import Gen.Gen_caps Model.Gate Proofs.C19_proofs.
 Import ListNotations.
 Local Open Scope string_scope.
 
@@ -38,6 +38,15 @@ Proof. exact needs_are_met_ok. Qed.
 Theorem C19_every_diagram_name_has_a_class : chain_classes_exist = true.
 Proof. exact chain_classes_exist_ok. Qed.
 
+(* output-type dispatch: every documented -type is routed to one of the six core methods; a standard metric
+   (class Standard) defines all of them; every special diagram defines at least the plot *)
+Theorem C19_every_output_type_is_routed : every_type_has_a_core = true.
+Proof. exact every_type_has_a_core_ok. Qed.
+Theorem C19_standard_metrics_support_every_output_type : standard_supports_all_types = true.
+Proof. exact standard_supports_all_types_ok. Qed.
+Theorem C19_every_diagram_can_be_plotted : every_diagram_plots = true.
+Proof. exact every_diagram_plots_ok. Qed.
+
 (* non-vacuity: obsfcst drops -x threshold, ets keeps it *)
 Example C19_example :
   (match find_output "ObsFcst" with Some o => gate o None (Some "threshold") | None => Some "?" end) = None /\
@@ -54,3 +63,4 @@ Print Assumptions C19_every_declared_threshold_type_is_recognised.
 Print Assumptions C19_internal_error_exit_unreachable.
 Print Assumptions C19_required_thresholds_are_provided.
 Print Assumptions C19_every_diagram_name_has_a_class.
+Print Assumptions C19_standard_metrics_support_every_output_type.
